@@ -594,7 +594,8 @@ int open_data_file(struct uftrace_opts *opts, struct uftrace_data *handle)
 
 out:
 	if (saved_errno) {
-		close_data_file(opts, handle);
+		/* keep the module symbol tables: another handle may use them (report --diff) */
+		__close_data_file(opts, handle, false);
 		errno = saved_errno;
 		ret = -1;
 	}
